@@ -32,6 +32,8 @@ type findScen struct {
 	// the chain runs THROUGH directories named spokfile: level l+1 is the directory `spokfile` of level l wherever level l's
 	// entry of that name is a directory (so a start or stop directory can itself be called spokfile)
 	Through bool `json:"through"`
+	// the level the unrelated directory hangs off (-2: directly off the sandbox root, next to the chain)
+	UA int `json:"ua"`
 }
 
 type findRec struct {
@@ -199,10 +201,7 @@ func findHandle(root string, line []byte) any {
 	os.Chdir("/")
 	os.RemoveAll(filepath.Join(root, "c"))
 	os.RemoveAll(filepath.Join(root, "u"))
-	paths := map[int]string{-1: filepath.Join(root, "u"), -2: "/"}
-	if err := populate(paths[-1], s.U, true, s.ID+7); err != nil {
-		return map[string]any{"id": s.ID, "outcome": "driver-error", "err": err.Error()}
-	}
+	paths := map[int]string{-2: "/"}
 	p := filepath.Join(root, "c")
 	for l, d := range s.Levels {
 		name := fmt.Sprintf("L%d", l)
@@ -216,6 +215,14 @@ func findHandle(root string, line []byte) any {
 		if err := populate(p, d, inner, s.ID+l); err != nil {
 			return map[string]any{"id": s.ID, "outcome": "driver-error", "err": err.Error()}
 		}
+	}
+	// the unrelated directory: next to the chain, or inside one of its levels
+	paths[-1] = filepath.Join(root, "u")
+	if s.UA >= 0 && s.UA < len(s.Levels) {
+		paths[-1] = filepath.Join(paths[s.UA], "u")
+	}
+	if err := populate(paths[-1], s.U, true, s.ID+7); err != nil {
+		return map[string]any{"id": s.ID, "outcome": "driver-error", "err": err.Error()}
 	}
 	rec := findRec{ID: s.ID, Level: -5}
 	func() {
